@@ -467,11 +467,8 @@ def exec_case(case) -> Collector:
                     return col
             col.labels.add('setup:closed')
             if pair[0] == pair[1]:
-                # same mode, every parameter legal: nothing in the specs justifies a refusal
-                col.fail(
-                    f'setup/refused/{pair}/fcs:{fcsk}/{type(exc).__name__}',
-                    f'both specs ask for mode {pair[0]} with legal parameters, but set-up failed with {exc!r} (both ends closed)',
-                )
+                # allowed by the statement ("or both ends closed"); counted so that it cannot go unnoticed
+                col.labels.add('setup:closed_although_same_mode')
             return col
 
         # ---- transfer --------------------------------------------------------------------
@@ -724,7 +721,7 @@ def run_case(ctx, case, record=True) -> None:
     if 'txseq_wrapped' in labels:
         nontrivial = True
     ctx.case(('c08', case), nontrivial, labels,
-             sample={k: case[k] for k in ('carrier', 'acl', CLIENT, SERVER, 'dc', 'ds', 'echo')} | {'ops': (case.get('ops') or [])[:8]})
+             sample={k: case.get(k) for k in ('carrier', 'acl', CLIENT, SERVER, 'dc', 'ds', 'echo', 'early')} | {'ops': (case.get('ops') or [])[:8]})
 
 
 # ---------------------------------------------------------------------------
@@ -897,13 +894,13 @@ def run(ctx) -> None:
             break
         run_case(ctx, case)
     ctx.extra['setup_grid_pairs'] = len(grid)
-    ctx.hyp('xfer', lambda c: run_case(ctx, c), case_strategy(), max_examples=ctx.n(600, 100000))
+    ctx.hyp('xfer', lambda c: run_case(ctx, c), case_strategy(), max_examples=ctx.n(600, 60000))
     for label, n in (
         ('mode:EE', 100), ('mode:BB', 30), ('mode_mismatch', 20), ('carrier:classic', 50), ('carrier:le', 50),
         ('fcs_requested', 50), ('fcs_on_wire', 30), ('segmented', 50), ('window_lt_segments', 40),
         ('txseq_wrapped', 20), ('sdu_over_64_segments', 5), ('delayed', 50), ('bidirectional', 30),
         ('echo_from_sink', 10), ('round_trip_exceeds_retransmission_timeout', 5), ('window_filled', 30),
-        ('fcs_option_unsupported', 20), ('write_right_after_create', 20),
+        ('fcs_option_unsupported', 20), ('write_right_after_create', 20), ('setup:open', 300), ('setup:closed', 50),
     ):
         ctx.floor(label, n if ctx.nshards == 1 else max(1, n // 4))
 
